@@ -110,6 +110,8 @@ pub enum Op {
     SeekEnd(Target),
     /// byte reader only: SeekFrom::Current(0) position query
     Tell,
+    /// byte reader only: Seek::seek_relative(target - current position)
+    SeekRelative(Target),
 }
 
 #[derive(Serialize, Deserialize, Clone, Debug, Hash, PartialEq, Eq)]
@@ -125,6 +127,14 @@ pub struct HistCase {
     /// drain it; the items must be exactly the rest of the stream
     #[serde(default)]
     pub iterate_tail: bool,
+    /// sample reader only: after the listed operations call read_to_end(); it must deliver exactly
+    /// the rest, and every later read / fill_buf / iteration must signal the end
+    #[serde(default)]
+    pub read_to_end_tail: bool,
+    /// junk bytes in front of the FLAC stream; the source is positioned behind them when the reader
+    /// is opened (the "skip the ID3 tag first" use of the constructors)
+    #[serde(default)]
+    pub prefix: u16,
 }
 
 /// resolves a target to a position in `unit`s (unit = bytes per PCM frame for the byte reader, 1 for sample readers)
@@ -177,7 +187,15 @@ pub fn run_history(c: &HistCase, seekable: bool, out: &mut Outcome) {
         3 => "width:3-bytes",
         _ => "width:4-bytes",
     });
-    let src = SegReader::new(bf.bytes.clone()).with_segs(c.segs.iter().map(|s| *s as usize).collect());
+    let mut src = {
+        let mut data: Vec<u8> = (0..c.prefix).map(|i| (i as u8).wrapping_mul(41) ^ 0xA7).collect();
+        data.extend_from_slice(&bf.bytes);
+        SegReader::new(data).with_segs(c.segs.iter().map(|s| *s as usize).collect())
+    };
+    src.pos = c.prefix as usize;
+    if c.prefix > 0 {
+        out.label("stream-not-at-offset-0-of-the-source");
+    }
     let is_byte = matches!(c.reader, ReaderSel::ByteLE | ReaderSel::ByteBE);
     // the model: the decoded stream as a flat array in the reader's unit
     let model_bytes: Vec<u8> = match c.reader {
@@ -223,7 +241,8 @@ pub fn run_history(c: &HistCase, seekable: bool, out: &mut Outcome) {
     let mut ops: Vec<Op> = c.ops.clone();
     // C07 mode: keep reading to the end, then poll a few more times
     let iterate_tail = c.iterate_tail && c.reader == ReaderSel::Sample;
-    if !seekable && !iterate_tail {
+    let read_to_end_tail = !iterate_tail && c.read_to_end_tail && c.reader == ReaderSel::Sample;
+    if !seekable && !iterate_tail && !read_to_end_tail {
         for _ in 0..4096 {
             if c.reader == ReaderSel::Channel {
                 ops.push(Op::Fill);
@@ -402,6 +421,36 @@ pub fn run_history(c: &HistCase, seekable: bool, out: &mut Outcome) {
                         _ => {}
                     }
                 }
+                (Op::SeekRelative(t), Rd::BLE(_) | Rd::BBE(_)) if seekable => {
+                    let unit = (bytes_per * ch) as u64;
+                    let want = resolve(t, &bf.blocks, unit, len);
+                    let Some(p) = pos else { return Ok(()) };
+                    let delta = (want - p as i128).clamp(i64::MIN as i128, i64::MAX as i128) as i64;
+                    let was_partial = partial || avail > 0;
+                    avail = 0;
+                    partial = false;
+                    let r = match &mut rd {
+                        Rd::BLE(r) => r.seek_relative(delta),
+                        Rd::BBE(r) => r.seek_relative(delta),
+                        _ => unreachable!(),
+                    };
+                    match r {
+                        Ok(()) => {
+                            if want < 0 || want as u64 > len {
+                                pos = None;
+                                return Err(("seek-beyond-accepted".into(), format!("seek_relative({delta}) from byte {p} to byte {want} of a {len}-byte stream returned Ok")));
+                            }
+                            pos = Some(want as u64);
+                            out_label(was_partial, &op, want as u64, unit);
+                        }
+                        Err(e) => {
+                            pos = None;
+                            if want >= 0 && want as u64 <= len {
+                                return Err(("seek-in-range-failed".into(), format!("seek_relative({delta}) from byte {p} to byte {want} of {len} failed: {e}")));
+                            }
+                        }
+                    }
+                }
                 (Op::SeekStart(t) | Op::SeekCurrent(t) | Op::SeekEnd(t), _) if seekable => {
                     let unit = if is_byte { (bytes_per * ch) as u64 } else { 1 };
                     let limit = if is_byte { len } else { frames_total };
@@ -504,6 +553,38 @@ pub fn run_history(c: &HistCase, seekable: bool, out: &mut Outcome) {
             out.nontrivial = true;
         }
     }
+    if read_to_end_tail {
+        if let (Rd::S(mut r), Some(p)) = (rd, pos) {
+            out.label("read_to_end-after-partial-use");
+            out.evals += 1;
+            let rest = model_samples[(p as usize).min(model_samples.len())..].to_vec();
+            let res = guarded(move || -> Result<(Vec<i32>, usize, usize, usize, bool), String> {
+                let mut got = vec![];
+                let n = r.read_to_end(&mut got).map_err(|e| e.to_string())?;
+                // afterwards the end must be signalled by every way of asking
+                let mut buf = [0i32; 7];
+                let again_read = r.read(&mut buf).map_err(|e| e.to_string())?;
+                let again_fill = r.fill_buf().map_err(|e| e.to_string())?.len();
+                let mut more = vec![];
+                let again_rte = r.read_to_end(&mut more).map_err(|e| e.to_string())?;
+                let iter_empty = r.into_iter().next().is_none();
+                let _ = n;
+                Ok((got, again_read, again_fill, again_rte, iter_empty))
+            });
+            match res {
+                Err(pn) => out.fails.push(Fail::panic(&format!("panic:{rname}"), &pn)),
+                Ok(Err(e)) => fail(out, "read_to_end-error", format!("read_to_end on a valid stream from sample {p} failed: {e}")),
+                Ok(Ok((got, a, b, c2, it))) => {
+                    if got != rest {
+                        fail(out, "read_to_end-data-mismatch", format!("read_to_end at interleaved sample {p}: {} samples for the remaining {}", got.len(), rest.len()));
+                    } else if a != 0 || b != 0 || c2 != 0 || !it {
+                        fail(out, "data-after-end-of-stream", format!("after read_to_end: read -> {a}, fill_buf -> {b}, read_to_end -> {c2}, iterator empty = {it}"));
+                    }
+                }
+            }
+        }
+        return;
+    }
     if iterate_tail {
         if let (Rd::S(r), Some(p)) = (rd, pos) {
             out.label("iterator-after-partial-use");
@@ -560,6 +641,9 @@ fn out_label(was_partial: bool, op: &Op, want: u64, unit: u64) {
     }
     if matches!(op, Op::SeekCurrent(_)) {
         v.push("seek-current-relative");
+    }
+    if matches!(op, Op::SeekRelative(_)) {
+        v.push("seek_relative");
     }
     if unit > 1 && want % unit != 0 {
         v.push("seek-not-pcm-frame-aligned");
@@ -646,6 +730,7 @@ pub fn op_strategy(seek: bool) -> BoxedStrategy<Op> {
             4 => target_strategy().prop_map(Op::SeekStart),
             1 => target_strategy().prop_map(Op::SeekCurrent),
             1 => target_strategy().prop_map(Op::SeekEnd),
+            1 => target_strategy().prop_map(Op::SeekRelative),
             1 => Just(Op::Tell),
         ]
         .boxed()
@@ -664,8 +749,23 @@ pub fn reader_strategy() -> BoxedStrategy<ReaderSel> {
 }
 
 pub fn hist_strategy() -> BoxedStrategy<HistCase> {
-    (file_strategy(), reader_strategy(), proptest::collection::vec(op_strategy(true), 1..40), prop_oneof![3 => Just(false), 1 => Just(true)])
-        .prop_map(|(file, reader, ops, iterate_tail)| HistCase { file, reader, ops, segs: vec![], extra_polls: 0, iterate_tail })
+    (
+        file_strategy(),
+        reader_strategy(),
+        proptest::collection::vec(op_strategy(true), 1..40),
+        prop_oneof![4 => Just(0u8), 1 => Just(1u8), 1 => Just(2u8)],
+        prop_oneof![2 => Just(0u16), 1 => 1u16..400],
+    )
+        .prop_map(|(file, reader, ops, tail, prefix)| HistCase {
+            file,
+            reader,
+            ops,
+            segs: vec![],
+            extra_polls: 0,
+            iterate_tail: tail == 1,
+            read_to_end_tail: tail == 2,
+            prefix,
+        })
         .boxed()
 }
 
